@@ -606,6 +606,7 @@ func (c *client) Start() {
 		close(c.quit)
 	})
 	<-writeDone
+	verifPause("client.start.drain", c)
 	c.drainRequests()
 	close(c.done)
 }
@@ -615,6 +616,7 @@ func (c *client) Send(req *simpleRequest) {
 	case <-c.quit:
 		req.SetResponse(newError(backendExited))
 	default:
+		verifPause("client.send.checked", c)
 		c.pendingReqs <- req
 	}
 }
@@ -648,6 +650,7 @@ func (c *client) loopWrite() {
 			}
 		}
 
+		verifPause("client.write.handoff", c)
 		select {
 		case <-c.quit:
 			return
@@ -671,6 +674,7 @@ func (c *client) loopRead() {
 			return
 		}
 
+		verifPause("client.read.pair", c)
 		req := <-c.processingReqs
 		c.handleResp(req, resp)
 	}
